@@ -30,7 +30,9 @@ OutOK(e, o) == IF IsNormOp(e.op) THEN NormOK(e.op, e.n, e.p, e.rs, e.ins, o.d)
               ELSE IF IsEncOp(e.op) THEN EncOK(e.op, e.n, e.p, e.rs, e.ins, o.d, o.dec)
               ELSE o.d = Post(e)
 
-SemOK(e)  == \A o \in 1..Len(e.outs) : e.outs[o].panic = "" /\ OutOK(e, e.outs[o])
+\* events of the magnitude corpora (values beyond native integers) are checked for absence of panics,
+\* cross-back-end agreement and fill independence only: chk = "agree"
+SemOK(e)  == \A o \in 1..Len(e.outs) : e.outs[o].panic = "" /\ (e.chk = "agree" \/ OutOK(e, e.outs[o]))
 \* diagnostic: a rejected relational event whose every outcome is still within two units ("sem1")
 Sem2OK(e) == IsNormOp(e.op) /\ \A o \in 1..Len(e.outs) :
                 e.outs[o].panic = "" /\ NormOK2(e.op, e.n, e.p, e.rs, e.ins, e.outs[o].d)
